@@ -129,6 +129,12 @@ class World:
         self.on_edit_raised = []
         self.on_fresh_failure = []
         self.last_sol = {}
+        self.solving = None  # the actor whose real solve is running (None, an Actor, or "fresh")
+        self.cb_counts = {"evolved": 0, "fresh": 0}
+        from . import model as M
+
+        M.CB_HOOKS.clear()
+        M.CB_HOOKS["*"] = self.cb_dispatch
 
     # -- bookkeeping
     def fault(self, k):
@@ -191,10 +197,6 @@ class World:
                 return "skipped"
             try:
                 act.apply(step)
-                if k == "callback":
-                    from . import model as M
-
-                    M.CB_HOOKS[act.name] = self.cb_hook(act)
             except KeyError as e:
                 return "skipped"
             except Exception as e:
@@ -310,6 +312,19 @@ class World:
         self.probe("warmstart")
         return self._execute(-1, step, step["a"], "set_initial")
 
+    def cb_dispatch(self, it, sol):
+        """the user's callback was invoked by the solver: what it does depends on whose solve is running.  (The callback
+        object of a loaded OCP is an unpickled copy that still carries the name it was created with, so neither the
+        counting nor the re-entry may go by that name.)"""
+        act = self.solving
+        if act is None:
+            return
+        if act == "fresh":
+            self.cb_counts["fresh"] += 1
+            return
+        self.cb_counts["evolved"] += 1
+        self.cb_hook(act)(it, sol)
+
     def cb_hook(self, act):
         """what the registered callback does when the real solver calls it between iterations: re-entry"""
         def hook(it, sol):
@@ -421,6 +436,8 @@ class World:
             self.seam.next_fault = fault
         self.seam.stub_point = step.get("point", "x0")
         n0 = self.seam.reached
+        self.solving = act
+        self.cb_counts = {"evolved": 0, "fresh": 0}
         try:
             how = step.get("how", "solve")
             sol = act.ocp.solve() if how == "solve" else act.ocp.solve_limited()
@@ -439,6 +456,7 @@ class World:
                 st["failed"] = True  # genuine solver failure
                 self.fault("real_solver_failed")
         finally:
+            self.solving = None
             self.seam.next_fault = None
             self.seam.mode = "stub"
             act.hidden["cb_raise_at"] = None
@@ -472,6 +490,7 @@ class World:
         except Exception:
             return
         self.seam.mode = "real"
+        self.solving = "fresh"
         how = step.get("how", "solve")
         try:
             solF = fresh.ocp.solve() if how == "solve" else fresh.ocp.solve_limited()
@@ -482,6 +501,7 @@ class World:
             outF = "raised:" + type(e).__name__
             errF = str(e)
         finally:
+            self.solving = None
             self.seam.mode = "stub"
         if out.split(":")[0] != outF.split(":")[0]:
             raise Violation("solve-outcome-differs", "real %s on the evolved OCP: %s; on the same specification written afresh: %s (solver %s, callback %s)" % (
@@ -500,11 +520,8 @@ class World:
                     how, float(np.nanmax(np.abs(g1 - g2))) if g1.shape == g2.shape else "shape"))
             if it1 != it2:
                 raise Violation("solve-result-differs", "iteration counts differ: evolved %s, fresh %s" % (it1, it2))
-            from . import model as M
-
-            c1 = len([1 for n_, _ in M.CB_LOG if n_ == act.name])
-            c2 = len([1 for n_, _ in M.CB_LOG if n_ == "fresh"])
-            if act.spec.cb and (c2 > 0) != (c1 > 0):
+            c1, c2 = self.cb_counts["evolved"], self.cb_counts["fresh"]
+            if c1 != c2:
                 raise Violation("callback-differs", "the callback ran %d times during solves of the evolved OCP but %d times on the fresh one" % (c1, c2))
         self.probe("real_solve_compared_with_fresh")
 
